@@ -26,6 +26,13 @@ mod verif_geom {
             xpad: bw - xo - w, ypad: bh - yo - h, xorigin: xo, yorigin: yo };
         p
     }
+    /// window (w,h) at origin (0,0) of the buffer (light variant: padding on the right/bottom only)
+    fn plane_win0<T: Pixel, const N: usize>(buf: &[T; N], bw: usize, w: usize, h: usize, xdec: usize, ydec: usize) -> Plane<T> {
+        let mut p = Plane::from_slice(buf, bw);
+        let bh = N / bw;
+        p.cfg = PlaneConfig { stride: bw, alloc_height: bh, width: w, height: h, xdec, ydec, xpad: bw - w, ypad: bh - h, xorigin: 0, yorigin: 0 };
+        p
+    }
     fn any_dim(max: usize) -> usize { let v: usize = kani::any(); kani::assume(v >= 1 && v <= max); v }
     fn any_dec() -> usize { let v: usize = kani::any(); kani::assume(v <= 2); v }
     fn cfg(bd: u8, ssx: u8, ssy: u8, full: bool) -> YuvConfig {
@@ -110,7 +117,7 @@ def accept_harness(T, lbw, lbh, cbw, cbh, name):
            unw=max(ln, cn) * (2 if T == 'u16' else 1) + 2)
 
 
-def decode_harness(T, ssx, ssy, w, h, name, bd, symbolic_content, pointwise, ue=0, ve=1, keepcmp=True, full=None):
+def decode_harness(T, ssx, ssy, w, h, name, bd, symbolic_content, pointwise, ue=0, ve=1, keepcmp=True, full=None, light=False):
     """Accepted frame -> ycbcr_to_ypbpr with every get_unchecked inside its buffer (C07);
     with pointwise=True also: output pixel (x,y) == kernels(Y(x,y), U/V(x>>ssx, y>>ssy)) bit for bit,
     source unmodified (C11)."""
@@ -139,7 +146,7 @@ def decode_harness(T, ssx, ssy, w, h, name, bd, symbolic_content, pointwise, ue=
             } }
 %(cmp)s''' % dict(w=w, h=h, ssx=ssx, ssy=ssy, cmp=("""            assert!(y.data()[0].data == keep.planes[0].data && y.data()[1].data == keep.planes[1].data && y.data()[2].data == keep.planes[2].data,
                 "borrowed source unmodified");""" if keepcmp else ""))
-    return r'''
+    tmpl = r'''
     #[kani::proof]
     #[kani::unwind(%(unw)d)]
     fn %(name)s() {
@@ -158,7 +165,12 @@ def decode_harness(T, ssx, ssy, w, h, name, bd, symbolic_content, pointwise, ue=
             kani::cover!(o.len() == %(w)d * %(h)d, "decoded");%(pw)s
         }
     }
-''' % dict(name=name, T=T, bufs=bufs, ln=ln, cn=cn, un=un, vn=vn, ubw=ubw, vbw=vbw, full=('kani::any()' if full is None else ('true' if full else 'false')), lbw=lbw, cbw=cbw, cbh=cbh, w=w, h=h, ssx=ssx, ssy=ssy, bd=bd,
+'''
+    if light:
+        # memory-light variant: origins fixed at (0,0), chroma windows of the required size; strides still differ from the
+        # widths and between the planes, contents (padding included) still symbolic
+        tmpl = tmpl.replace("plane_win::<%(T)s, %(ln)d>(&yb,", "plane_win0::<%(T)s, %(ln)d>(&yb,").replace("plane_win::<%(T)s, %(un)d>(&ub, %(ubw)d, any_dim(%(ubw)d), any_dim(%(cbh)d),", "plane_win0::<%(T)s, %(un)d>(&ub, %(ubw)d, %(cw)d, %(ch)d,").replace("plane_win::<%(T)s, %(vn)d>(&vb, %(vbw)d, any_dim(%(vbw)d), any_dim(%(cbh)d),", "plane_win0::<%(T)s, %(vn)d>(&vb, %(vbw)d, %(cw)d, %(ch)d,")
+    return tmpl % dict(name=name, T=T, bufs=bufs, ln=ln, cn=cn, un=un, vn=vn, cw=cw, ch=ch, ubw=ubw, vbw=vbw, full=('kani::any()' if full is None else ('true' if full else 'false')), lbw=lbw, cbw=cbw, cbh=cbh, w=w, h=h, ssx=ssx, ssy=ssy, bd=bd,
            pw=pw, unw=max(max(ln, cn) * (2 if (T == 'u16' and pointwise) else 1), w * h) + 2)
 
 
